@@ -163,8 +163,10 @@ def gen_object(rng, n_enums):
             spec["types"] = {"status": rng.randrange(n_enums)}
         return spec
     if r < 0.84:
-        return {"kind": "ghist", "repo": rng.choice(["linear", "branches"]),
-                "bug": rng.choice(["BUG-111", "BUG-133", "BUG", "BUG-xxx", "BUG-177", "BUG-444"])}
+        repo = rng.choice(["linear", "branches", "parent+lib", "parent+lib"])
+        bugs = ["BUG-211", "BUG-211 c", "BUG", "no bug", "BUG-xxx"] if repo == "parent+lib" else \
+               ["BUG-111", "BUG-133", "BUG", "BUG-xxx", "BUG-177", "BUG-444"]
+        return {"kind": "ghist", "repo": repo, "bug": rng.choice(bugs)}
     return {"kind": "hdoc", "what": rng.choice(["cls", "obj", "derived", "method", "mcaller"]),
             "level": rng.choice([1, 2])}
 
